@@ -16,11 +16,11 @@ import (
 type cnode struct {
 	name     string
 	children []*cnode
-	prio     int    // priority of the child monitor carrying this event
-	fail     bool   // rule 1 fails (after having added the children)
-	fail2    bool   // a second rule on this event exists and fails
-	two      bool   // a second rule (priority 1) exists
-	norule   bool   // no rule matches this event's kind (skipped child)
+	prio     int  // priority of the child monitor carrying this event
+	fail     bool // rule 1 fails (after having added the children)
+	fail2    bool // a second rule on this event exists and fails
+	two      bool // a second rule (priority 1) exists
+	norule   bool // no rule matches this event's kind (skipped child)
 }
 
 type cshape struct {
